@@ -5,6 +5,7 @@ from __future__ import annotations
 from inspect import isawaitable
 from typing import TYPE_CHECKING, Any
 
+from hypergraph.nodes._rename import build_reverse_rename_map
 from hypergraph.nodes.base import _EMIT_SENTINEL
 from hypergraph.runners._shared.types import PauseExecution, PauseInfo
 from hypergraph.runners.async_.superstep import get_concurrency_limiter
@@ -88,8 +89,15 @@ def _normalize_response(
     if not data_outputs:
         return {}
     if len(data_outputs) > 1 and isinstance(response, dict):
-        expected_keys = set(data_outputs)
+        # The handler names its outputs as it declared them; with_outputs() renames
+        # only change the names under which the values are published.
+        declared = build_reverse_rename_map(node._rename_history, "outputs")
+        declared_names = {out: declared.get(out, out) for out in data_outputs}
+        expected_keys = set(declared_names.values())
         actual_keys = set(response.keys())
+        if actual_keys == expected_keys:
+            return {out: response[declared_names[out]] for out in data_outputs}
+        expected_keys = set(data_outputs)
         if actual_keys != expected_keys:
             missing = expected_keys - actual_keys
             extra = actual_keys - expected_keys
